@@ -37,6 +37,7 @@ type walCase struct {
 	buf        int  // 0 = default writer factory (4 MiB buffer, no compression)
 	max        uint64
 	defaultMax bool // MaximumWalFileSizeBytes not given
+	boundary   bool // max chosen next to Size()+len(record) of one of the appends
 	ops        []walOp
 }
 
@@ -85,6 +86,27 @@ func genWalCase(r *Rng, tier string) *walCase {
 			c.ops = append(c.ops, walOp{"s", walPayload(r, around)})
 		default:
 			c.ops = append(c.ops, walOp{kind: "r"})
+		}
+	}
+	// aim at the boundary of the size rule: limit = Size() + len(record) of some append, -1 / exactly / +1
+	if r.Chance(22) && !c.defaultMax {
+		var cands []uint64
+		size := uint64(8)
+		for _, o := range c.ops {
+			if o.kind == "r" {
+				size = 8
+				continue
+			}
+			cands = append(cands, size+uint64(len(o.rec)))
+			size += uint64(refRecordLen(c.comp, o.rec))
+		}
+		if len(cands) > 0 {
+			m := cands[r.Intn(len(cands))] + uint64(r.Intn(3))
+			if m > 0 {
+				m--
+			}
+			c.max = m
+			c.boundary = true
 		}
 	}
 	return c
@@ -315,6 +337,8 @@ func walOne(res *Result, drv *Driver, r *Rng, c *walCase, idx int, base string, 
 	cs := c.String()
 	res.Stat(fmt.Sprintf("comp=%d", c.comp))
 	switch {
+	case c.boundary:
+		res.Stat("max:at-size-rule-boundary")
 	case c.defaultMax:
 		res.Stat("max:default")
 	case c.max <= 8:
